@@ -78,6 +78,18 @@ CLAIMED = {
         note=TB + "What each command does to the text is taken from the trace (parametric).",
         technique="Coq proof (chain invariant by induction over operation lists) + trace replay correspondence",
         design="§9 C07"),
+    "C19": dict(
+        text="Theorems (every sorted match list, every cursor): /P lands on a match, the first one that starts after the cursor or else the first of the buffer; ?P mirrors it; n/N are the search in the same/opposite direction and always land on a match; a count on n equals that many presses (modular-arithmetic proof over strictly increasing match lists); no match => Null motion; the cursor index is the cluster whose first byte is the match start. "
+             "'Match' is the regex engine's find_iter (oracle). Correspondence: every search ViCmd traced by the hook (chains of / ? n N with counts, multi-byte texts, all start cursors) vs the model on (cached offsets, match starts, cursor byte); reference oracle from Python re with wrap-around, direction memory and iterated counts; searches never edit the text; -c fields.",
+        note=TB + "regex crate replaced by Python re on the shared subset (no empty matches).",
+        technique="Coq proof (first/last-position lemmas, modular iteration) + trace correspondence + reference search",
+        design="§9 C19"),
+    "C13": dict(
+        text="Theorems (every buffer as a cluster list, every match oracle): the scope's line list contains a line iff it is a line of the text and matches (for -v: does not), each once; -g and -v partition the lines; lines are visited last to first and editing at or after a line's start does not move it (so the cursor is on each visited line's first character for line-local scopes); --else runs iff the list is empty. "
+             "Correspondence/oracles at the CLI: 0..9-line texts (empty lines, multi-byte, with/without final newline) x 20 patterns x -g/-v x three observation variants (mark visited lines, cut the character under the cursor per visit, --else) vs Python re per line; the model's scan (lines and starts) evaluated on the real segmentation.",
+        note=TB + "regex is an oracle; CRLF texts excluded here (a \\r\\n cluster is not a line break for the editor).",
+        technique="Coq proof (filter/rev/NoDup reasoning, prefix-stability of line starts) + CLI oracles",
+        design="§9 C13"),
 }
 
 NOT_YET = {}
